@@ -4,6 +4,7 @@ package postprocessor
 
 import (
 	"bytes"
+	"encoding/json"
 	"fmt"
 	"os"
 	"strings"
@@ -449,6 +450,54 @@ func TestVerif_C10_File(t *testing.T) {
 	c := c10FromBytes(os.Getenv("VERIF_C10_TARGET"), b)
 	c.Note = "file " + p
 	propC10(t, c)
+}
+
+// TestVerif_C10_Minimise (development aid): VERIF_C10_MIN=<replay json of a panic> shrinks the body by delta debugging
+// while the panic keeps its key and its panicking function; writes <replay>.min and prints the result.
+func TestVerif_C10_Minimise(t *testing.T) {
+	p := os.Getenv("VERIF_C10_MIN")
+	if p == "" {
+		t.Skip()
+	}
+	os.Setenv("VERIF_REPLAY", p)
+	var c c10Case
+	var f veriflib.Failure
+	raw, err := os.ReadFile(p)
+	if err != nil || json.Unmarshal(raw, &f) != nil || json.Unmarshal(f.Case, &c) != nil {
+		t.Fatalf("harness: cannot read %s", p)
+	}
+	c = c10Materialise(c)
+	first, over := c10Exec(c, 5*time.Second)
+	if over != "" || first.pn == nil {
+		t.Fatalf("the case does not panic (over=%q)", over)
+	}
+	same := func(b []byte) bool {
+		d := c
+		d.Body = b
+		r, over := c10Exec(d, 2*time.Second)
+		return over == "" && r.pn != nil && r.pn.Key == first.pn.Key && r.pn.Site == first.pn.Site
+	}
+	b := c.Body
+	for n := 2; len(b) >= 2; {
+		chunk := (len(b) + n - 1) / n
+		reduced := false
+		for i := 0; i < len(b); i += chunk {
+			cand := append(append([]byte{}, b[:i]...), b[min(len(b), i+chunk):]...)
+			if same(cand) {
+				b, reduced = cand, true
+				n = max(n-1, 2)
+				break
+			}
+		}
+		if !reduced {
+			if chunk == 1 {
+				break
+			}
+			n = min(n*2, len(b))
+		}
+	}
+	os.WriteFile(p+".min", b, 0o644)
+	fmt.Printf("MINIMISED %s (%s at %s): %d -> %d bytes: %q\n", first.pn.Key, first.pn.Value, first.pn.Site, len(c.Body), len(b), b)
 }
 
 // TestVerif_C10_ZzVerdict turns timeouts that did not reproduce into an "inconclusive" process exit (the driver
